@@ -17,7 +17,7 @@ use std::collections::{BTreeSet, HashSet};
 
 pub const META: Meta = Meta {
     level: "exploration",
-    rule: "local: every sequence of 3 (quick) / 4 (thorough) advertised lists, each list any of the 85 lists of length <=3 over {/a,/b,/c,x(invalid)} with duplicates (first = initial list at connection creation); remote: every sequence of <=4 (quick) / <=6 (thorough) reports Added(S)/Removed(S), S any subset of {/a,/b}, interleaved with local list changes. Non-trivial = distinct sequences in which at least one step changes the expected set.",
+    rule: "local: every sequence of 3 (quick) / 4 (thorough) advertised lists, each list any of the 85 lists of length <=3 over {/a,/b,/c,x(invalid)} with duplicates (first = initial list at connection creation); remote: every sequence of <=4 (quick) / <=6 (thorough) reports Added(S)/Removed(S), S any subset of {/a,/b}, interleaved with local list changes; batches: every sequence of <=2 batches of <=3 reports (thorough also <=3 batches of <=2 reports) where all reports of a batch are emitted back-to-back inside ONE Connection::poll, either straight away or triggered by the LocalProtocolsChange event of the same step (local change directly followed by remote reports in the same poll). Non-trivial = distinct sequences in which at least one step changes the expected set.",
     explanation: "Each sequence is executed on a fresh production Connection over an idle scripted muxer; after every step the connection is polled to quiescence and the probe handler's folds are compared with the expected sets.",
     assumptions: &["names over a 4-letter alphabet, lists of length <=3", "each list change is followed by a poll of the connection (as the connection task would be woken)"],
 };
@@ -119,6 +119,73 @@ fn remote_case(seq: &[usize]) -> Result<u64, String> {
     Ok(n)
 }
 
+fn report_of(a: usize, model: &mut BTreeSet<String>) -> ProtocolSupport {
+    let set: HashSet<StreamProtocol> = (0..2).filter(|b| a & (1 << b) != 0).map(|b| StreamProtocol::new(["/a", "/b"][b])).collect();
+    if a & 4 == 0 {
+        for p in &set {
+            model.insert(p.to_string());
+        }
+        ProtocolSupport::Added(set)
+    } else {
+        for p in &set {
+            model.remove(p.as_ref());
+        }
+        ProtocolSupport::Removed(set)
+    }
+}
+
+/// batches of remote reports emitted back-to-back inside ONE `Connection::poll` (the handler
+/// returns them from consecutive `poll` calls without a `Pending` in between); with `on_local`
+/// the handler starts emitting the batch when it receives the LocalProtocolsChange event of the
+/// same step, i.e. a local change directly followed by remote reports in the same poll.
+fn batch_case(seq: &[Vec<usize>], on_local: bool) -> Result<u64, String> {
+    let locals: [Vec<usize>; 3] = [vec![0], vec![0, 1], vec![2]];
+    let mut d = Driver::new(names(&locals[0]), true, FOREVER, FOREVER, 4);
+    d.run().map_err(|e| format!("connection-error :: {e}"))?;
+    let mut model: BTreeSet<String> = BTreeSet::new();
+    let note = if on_local { "reports emitted right after a local change, same poll" } else { "several reports in one poll" };
+    for (k, batch) in seq.iter().enumerate() {
+        let local = &locals[(k + 1) % 3];
+        {
+            let mut h = d.h.lock().unwrap();
+            h.protocols = names(local);
+            for &a in batch {
+                let r = report_of(a, &mut model);
+                if on_local {
+                    h.report_on_local.push_back(r);
+                } else {
+                    h.report.push_back(r);
+                }
+            }
+        }
+        let polls_before = d.polls;
+        d.run().map_err(|e| format!("connection-error :: {e}"))?;
+        let h = d.h.lock().unwrap();
+        if !h.report.is_empty() || !h.report_on_local.is_empty() {
+            return Err(format!("harness-desync :: reports not consumed after step {k} of {seq:?} (on_local={on_local})"));
+        }
+        if d.polls != polls_before + 1 {
+            return Err(format!("harness-desync polls :: step {k} of {seq:?} needed {} polls, expected all reports inside one", d.polls - polls_before));
+        }
+        if let Some(m) = mismatch("remote", &h.remote_fold, &model, note, format!("batches {seq:?}, step {k}")) {
+            return Err(m);
+        }
+        if let Some(m) = mismatch("local", &h.local_fold, &valid(local), note, format!("batches {seq:?}, step {k}")) {
+            return Err(m);
+        }
+    }
+    let n = d.h.lock().unwrap().remote_events;
+    Ok(n)
+}
+
+fn batches(max_reports: usize) -> Vec<Vec<usize>> {
+    let mut v = Vec::new();
+    for l in 1..=max_reports {
+        mc::enumerate::sequences(8, l, |s| v.push(s.to_vec()));
+    }
+    v
+}
+
 fn guarded<T>(f: impl FnOnce() -> Result<T, String>) -> Result<T, String> {
     mc::catch(f).unwrap_or_else(|p| Err(format!("panic at {} :: {p}", mc::shim::last_panic_loc().unwrap_or_default())))
 }
@@ -128,7 +195,11 @@ pub fn run(ctx: &Ctx) -> Outcome {
     if let Some(c) = &ctx.replay {
         let mut out = Outcome::default();
         out.evaluations = 1;
-        let r = if c["kind"] == "remote" {
+        let r = if c["kind"] == "batch" {
+            let seq: Vec<Vec<usize>> = serde_json::from_value(c["seq"].clone()).unwrap_or_default();
+            let on_local = c["on_local"].as_bool().unwrap_or(false);
+            guarded(|| batch_case(&seq, on_local)).map(|_| ())
+        } else if c["kind"] == "remote" {
             let seq: Vec<usize> = serde_json::from_value(c["seq"].clone()).unwrap_or_default();
             guarded(|| remote_case(&seq)).map(|_| ())
         } else {
@@ -142,6 +213,8 @@ pub fn run(ctx: &Ctx) -> Outcome {
     }
     let len = ctx.tier.pick(3, 4);
     let rlen = ctx.tier.pick(4, 6);
+    // (max reports per batch, max batches per sequence)
+    let blens: Vec<(usize, usize)> = ctx.tier.pick(vec![(3, 2)], vec![(3, 2), (2, 3)]);
     // pre-pass in the parent: all sequences of 2 lists, so that the reported counterexample per
     // signature is a shortest one (its violations are merged first)
     let mut pre = Outcome::default();
@@ -211,12 +284,44 @@ pub fn run(ctx: &Ctx) -> Outcome {
             }
         });
         out.count("remote_change_events", remote_ev);
+        // batches of reports inside one poll
+        let mut batch_ev = 0u64;
+        let mut bidx = 0u64;
+        let mut run_batch = |seq: &[Vec<usize>], out: &mut Outcome| {
+            for on_local in [false, true] {
+                bidx += 1;
+                if !ctx.mine(bidx) {
+                    continue;
+                }
+                out.evaluations += 1;
+                if seq.iter().any(|b| b.len() > 1) || on_local {
+                    out.nontrivial_h((1 << 62) ^ mc::report::hash_str(&format!("{seq:?}{on_local}")));
+                }
+                match guarded(|| batch_case(seq, on_local)) {
+                    Ok(ev) => batch_ev += ev,
+                    Err(m) => out.violation(mc::bfs::signature_of(&m), m, json!({"kind": "batch", "seq": seq, "on_local": on_local})),
+                }
+                if bidx % 100_003 == 7 {
+                    out.sample(json!({"kind": "batch", "batches": seq, "on_local": on_local}));
+                }
+            }
+        };
+        for (max_reports, max_len) in blens.iter().copied() {
+            let bs = batches(max_reports);
+            for l in 1..=max_len {
+                mc::enumerate::sequences(bs.len(), l, |idx| {
+                    let seq: Vec<Vec<usize>> = idx.iter().map(|&i| bs[i].clone()).collect();
+                    run_batch(&seq, &mut out);
+                });
+            }
+        }
+        out.count("batched_remote_change_events", batch_ev);
         out.traces = out.evaluations;
         out
     });
     pre.merge(main);
     pre.also(|out| {
-        if out.get("local_sequences_with_change_events") == 0 || out.get("remote_change_events") == 0 {
+        if out.get("local_sequences_with_change_events") == 0 || out.get("remote_change_events") == 0 || out.get("batched_remote_change_events") == 0 {
             out.machinery("vacuity: no LocalProtocolsChange / RemoteProtocolsChange event was ever delivered");
         }
         out.notes.push(format!("local sequences of {len} lists over 85 lists; remote report sequences of length <= {rlen}"));
